@@ -3,6 +3,7 @@ Helper lemmas for property C02 (tail calls run in bounded space): the activation
 `Store.depth` / `Store.maxDepth` through every evaluator function.
 -/
 import RuschmProofs.ErrLemmas
+import RuschmProofs.C05Shapes
 namespace Ruschm.Eval
 open Prim
 
@@ -1420,3 +1421,79 @@ theorem app_loop (g env : Nat) : ∀ (N : Nat) (A : Int) (σ : Store), AppEnv σ
 
 end Eval
 end Ruschm
+
+/-! ## tail position in the data the parser transforms (the bundled derived forms) -/
+
+namespace Ruschm.Macro
+open Ruschm.C05
+
+theorem isList_ofList (l : Loc) : ∀ xs : List Datum, IsList (Datum.ofList l xs) xs
+  | [] => rfl
+  | x :: xs => by
+    have := isList_ofList none xs
+    simp only [IsList, Datum.ofList, Datum.spine] at this ⊢
+    rw [this]
+
+theorem isList_withLoc {d : Datum} {es : List Datum} (l : Loc) (h : IsList d es) : IsList (d.withLoc l) es := by
+  cases d <;> simp [IsList, Datum.withLoc, Datum.spine] at h ⊢ <;> exact h
+
+theorem isList_pair {a d : Datum} {l : Loc} {es : List Datum} (h : IsList d es) : IsList (.pair a d l) (a :: es) := by
+  simp only [IsList, Datum.spine] at h ⊢
+  rw [h]
+
+/-- `DTail sub d`: the datum `sub` is in tail position of the datum `d`, as the parser will transform
+it — `d` itself; an arm of `(if t c)` / `(if t c a)`; the last body form of a `(lambda …)` in operator
+position; and through one expansion step of a bundled derived form (`expand1` on the generated
+`Gen.grammarData`; the use is what follows the keyword, located at the form, as
+`transform_to_statement` passes it). -/
+inductive DTail : Datum → Datum → Prop
+  | here (d : Datum) : DTail d d
+  | if_then {sub d i t c rest} (hd : IsList d (i :: t :: c :: rest)) (hi : isSym "if" i = true)
+      (h : DTail sub c) : DTail sub d
+  | if_else {sub d i t c a rest} (hd : IsList d (i :: t :: c :: a :: rest)) (hi : isSym "if" i = true)
+      (h : DTail sub a) : DTail sub d
+  | lam_call {sub d lam args k formals pre last} (hd : IsList d (lam :: args))
+      (hl : IsList lam (k :: formals :: (pre ++ [last]))) (hk : isSym "lambda" k = true)
+      (h : DTail sub last) : DTail sub d
+  | expand {sub kw l₁ rest l d'} (hkw : kw ∈ keywords)
+      (hx : ∀ fuel, matchFuel (rest.withLoc l) ≤ fuel → expand1 fuel kw (rest.withLoc l) = .ok d')
+      (h : DTail sub d') : DTail sub (.pair (.sym kw l₁) rest l)
+
+theorem DTail.trans {a b c : Datum} (h₁ : DTail a b) (h₂ : DTail b c) : DTail a c := by
+  induction h₂ with
+  | here => exact h₁
+  | if_then hd hi _ ih => exact .if_then hd hi ih
+  | if_else hd hi _ ih => exact .if_else hd hi ih
+  | lam_call hd hl hk _ ih => exact .lam_call hd hl hk ih
+  | expand hkw hx _ ih => exact .expand hkw hx ih
+
+/-- the tail form of `((lambda formals body… last) args…)` as a template builds it -/
+theorem DTail.of_lambda_call {sub : Datum} (loc : Loc) (formals : Datum) (pre : List Datum) (last : Datum)
+    (args : List Datum) (h : DTail sub last) :
+    DTail sub (L loc (L loc (S loc "lambda" :: formals :: (pre ++ [last])) :: args)) :=
+  .lam_call (isList_ofList _ _) (isList_ofList _ _) rfl h
+
+/-- `begin`: the last form -/
+theorem dtail_begin {sub l₁ rest l pre last} (hu : IsList rest (pre ++ [last])) (h : DTail sub last) :
+    DTail sub (.pair (.sym "begin" l₁) rest l) := by
+  refine .expand (by decide) (fun fuel hf => begin_shape (isList_withLoc l hu) (by simp) hf) ?_
+  exact DTail.of_lambda_call _ _ pre last [] h
+
+/-- `(begin form… last)` as a template builds it -/
+theorem dtail_begin_built {sub : Datum} (loc : Loc) {pre last} (h : DTail sub last) :
+    DTail sub (L loc (S loc "begin" :: (pre ++ [last]))) :=
+  dtail_begin (isList_ofList none _) h
+
+/-- `when`: the last result -/
+theorem dtail_when {sub l₁ rest l test pre last} (hu : IsList rest (test :: (pre ++ [last]))) (h : DTail sub last) :
+    DTail sub (.pair (.sym "when" l₁) rest l) := by
+  refine .expand (by decide) (fun fuel hf => when_shape (isList_withLoc l hu) (by simp) hf) ?_
+  exact .if_then (isList_ofList _ _) rfl (dtail_begin_built _ h)
+
+/-- `unless`: the last result -/
+theorem dtail_unless {sub l₁ rest l test pre last} (hu : IsList rest (test :: (pre ++ [last]))) (h : DTail sub last) :
+    DTail sub (.pair (.sym "unless" l₁) rest l) := by
+  refine .expand (by decide) (fun fuel hf => unless_shape (isList_withLoc l hu) (by simp) hf) ?_
+  exact .if_then (isList_ofList _ _) rfl (dtail_begin_built _ h)
+
+end Ruschm.Macro
